@@ -236,6 +236,10 @@ def mk_beh(kind, rid, rng=None, status=None):
         return {'k': 'late', 's': status or 'Equal', 'm': 'late ' + rid}
     if kind in ('playerRaises', 'extractorRaises', 'comparatorRaises'):
         return {'k': kind, 'm': '%s %s' % (kind[:-6], rid)}
+    if kind == 'hangTermIgnored':      # a hang (the model's `hang`) of a player that ignores SIGTERM
+        return {'k': 'hang', 'sigterm': 'ignore'}
+    if kind == 'hangTermHandled':      # … or has installed a graceful-shutdown handler for it
+        return {'k': 'hang', 'sigterm': 'handler'}
     return {'k': kind}
 
 
@@ -313,13 +317,16 @@ class C08(Prop):
             cases.append(mk_case(ids, kinds, 'ded', rng.random() < .5, rng.randint(1, 3), 0.5, rng=rng))
         ids = ['r0', 'r1', 'r0', 'r2', 'r1']
         cases.append(mk_case(ids, ['verdict', 'playerRaises', 'verdict', 'bare', 'playerRaises'], 'both', True, 2, 0.5, rng=rng))
+        ids, kinds = fill(4, {rng.randint(0, 2): rng.choice(['hangTermIgnored', 'hangTermHandled'])})
+        cases.append(mk_case(ids, kinds, 'ded', rng.random() < .5, rng.randint(1, 3), 0.5, rng=rng))
         # random sequences
         n_ded, n_in = (0, 16) if tier == 'quick' else (270, 300)
-        weights = ['verdict'] * 4 + ['bare', 'playerRaises', 'extractorRaises', 'comparatorRaises', 'exit', 'hang', 'late']
+        weights = ['verdict'] * 4 + ['bare', 'playerRaises', 'extractorRaises', 'comparatorRaises', 'exit', 'hang', 'late',
+                                     'hangTermIgnored']
         for _ in range(n_ded):
             n = rng.randint(3, 8)
             kinds = [rng.choice(weights) for _ in range(n)]
-            while sum(k in ('hang', 'late') for k in kinds) > 3:
+            while sum(k in ('hang', 'late', 'hangTermIgnored') for k in kinds) > 3:
                 kinds[rng.randrange(n)] = 'verdict'
             ids = ['r%d' % i for i in range(n)]
             cases.append(mk_case(ids, kinds, 'both', rng.random() < .5, rng.choice([1, 2, 3, 4, 5]),
@@ -379,6 +386,8 @@ class C08(Prop):
         for pos, i in enumerate(case['ids']):
             k = case['beh'][i]['k']
             out.append('beh:' + k)
+            if case['beh'][i].get('sigterm'):
+                out.append('hang:sigterm-' + case['beh'][i]['sigterm'])
             if k != 'verdict':
                 out.append('%s@%s' % (k, 'first' if pos == 0 else 'last' if pos == n - 1 else 'middle'))
             if pos and k in FAULTY and case['beh'][case['ids'][pos - 1]]['k'] in FAULTY:
